@@ -2,7 +2,7 @@
    liquidity-point bookkeeping (the escrow / order-book identities are stated over the ledger model, see C04). *)
 From Coq Require Import NArith List Bool.
 From V Require Import U64 Extracted Dex DexProofs.
-From V Require Ledger LedgerConservation LedgerHistory.
+From V Require Ledger LedgerConservation LedgerHistory DexBatch DexBatchProofs.
 Import ListNotations.
 Local Open Scope N_scope.
 
@@ -69,6 +69,25 @@ Theorem C20_escrow_step : forall m s s', V.LedgerConservation.wf s -> V.LedgerCo
   V.LedgerConservation.msg_fresh m s ->
   V.Ledger.handle m s = V.Ledger.LOk s' -> V.LedgerConservation.Escrow s'.
 Proof. exact V.LedgerConservation.handle_escrow. Qed.
+
+(* ---- batch pipeline, same-block merge (IncludeSameBlockDex): operations queued while a batch was being locked are moved
+   into it up to the per-batch caps; nothing is lost, duplicated or reordered - each list of (locked', next') concatenates
+   to the concatenation before, whether the next batch is written back or deleted - and the caps are respected *)
+Theorem C20_same_block_merge_preserves : forall mo md mw L Nx L' N', V.DexBatch.include_same_block mo md mw L Nx = (L', N') ->
+  V.DexBatch.db_orders L' ++ V.DexBatch.db_orders N' = V.DexBatch.db_orders L ++ V.DexBatch.db_orders Nx /\
+  V.DexBatch.db_deposits L' ++ V.DexBatch.db_deposits N' = V.DexBatch.db_deposits L ++ V.DexBatch.db_deposits Nx /\
+  V.DexBatch.db_withdrawals L' ++ V.DexBatch.db_withdrawals N' = V.DexBatch.db_withdrawals L ++ V.DexBatch.db_withdrawals Nx.
+Proof. exact V.DexBatchProofs.merge_preserves. Qed.
+Print Assumptions C20_same_block_merge_preserves.
+Theorem C20_same_block_merge_caps : forall mo md mw L Nx L' N', V.DexBatch.include_same_block mo md mw L Nx = (L', N') ->
+  (length (V.DexBatch.db_orders L) <= mo -> length (V.DexBatch.db_orders L') <= mo)%nat /\
+  (length (V.DexBatch.db_deposits L) <= md -> length (V.DexBatch.db_deposits L') <= md)%nat /\
+  (length (V.DexBatch.db_withdrawals L) <= mw -> length (V.DexBatch.db_withdrawals L') <= mw)%nat.
+Proof. exact V.DexBatchProofs.merge_caps. Qed.
+Example ex_merge_truncated_deposits :
+  V.DexBatch.include_same_block 4 3 3 (V.DexBatch.mkDB [1] [11; 12] []) (V.DexBatch.mkDB [2; 3] [13; 14; 15] [21]) =
+  (V.DexBatch.mkDB [1; 2; 3] [11; 12; 13] [21], V.DexBatch.mkDB [] [14; 15] []).
+Proof. vm_compute. reflexivity. Qed.
 
 (* non-vacuity *)
 Example ex_swap : handle_orders 1000000 2000000 [mkOrder 1000 0; mkOrder 5000 20000; mkOrder 7 0] =
